@@ -1,5 +1,5 @@
 from shexer.utils.log import log_msg
-from shexer.utils.uri import there_is_arroba_after_last_quotes
+from shexer.utils.uri import index_of_closing_quotes
 from shexer.utils.triple_yielders import tune_prop, tune_token  # , check_if_property_belongs_to_namespace_list
 from shexer.io.graph.yielder.base_triples_yielder import BaseTriplesYielder
 
@@ -71,9 +71,12 @@ class NtTriplesYielder(BaseTriplesYielder):
         return index_sub + (len(target_str) - len(target_substring))
 
     def _look_for_last_index_of_bnode_token(self, target_str, first_index):
-        target_substring = target_str[first_index:]
-        index_sub = target_substring.find(" ")
-        return index_sub + (len(target_str) - len(target_substring)) - 1
+        last_index = first_index
+        while last_index + 1 < len(target_str) and not target_str[last_index + 1].isspace():
+            last_index += 1
+        while last_index > first_index and target_str[last_index] == ".":  # a label cannot end with '.': it closes the triple
+            last_index -= 1
+        return last_index
 
     def _look_for_last_index_of_unlabelled_number_token(self, target_str, first_index):
         target_substring = target_str[first_index:]
@@ -82,22 +85,19 @@ class NtTriplesYielder(BaseTriplesYielder):
 
     def _look_for_last_index_of_literal_token(self, target_str, first_index):
         target_substring = target_str[first_index:]
-
-        if there_is_arroba_after_last_quotes(target_substring):  # String labelled with language
-            return target_substring[target_substring.rfind("@"):].find(" ") - 1 + target_str.rfind("@")
-        elif "^^" not in target_substring:  # Not typed
-            success = False
-            index_of_quotes = 1
-            while not success:
-                index_of_second_quotes = target_substring[index_of_quotes + 1:].find('"') + index_of_quotes + 1
-                if target_substring[index_of_second_quotes - 1] != "\\":
-                    success = True
-                elif target_substring[index_of_second_quotes - 2] == "\\":  # Case of escaped slash "\\"
-                    success = True
-                index_of_quotes = index_of_second_quotes
-            return index_of_quotes + (len(target_str) - len(target_substring))
-        else:  # Typed
-            return target_substring[target_substring.find("^^"):].find(" ") - 1 + target_str.find("^^")
+        last_index = index_of_closing_quotes(target_substring)
+        if target_substring.startswith("@", last_index + 1):  # String labelled with language
+            last_index += 1
+            while last_index + 1 < len(target_substring) and \
+                    (target_substring[last_index + 1].isalnum() or target_substring[last_index + 1] == "-"):
+                last_index += 1
+        elif target_substring.startswith("^^<", last_index + 1):  # Typed, <uri>
+            last_index = target_substring.find(">", last_index)
+        elif target_substring.startswith("^^", last_index + 1):  # Typed, prefixed
+            last_index += 2
+            while last_index + 1 < len(target_substring) and not target_substring[last_index + 1].isspace():
+                last_index += 1
+        return last_index + first_index
 
     @property
     def yielded_triples(self):
